@@ -160,11 +160,18 @@ def gen_cases(tier, seed):
             ("ds", "fd_avg", 3), ("ds", "sharded", 2), ("sm3", "sm3", 3), ("tf", "SHAMPOO", 5), ("tf", "SKETCHY", 5),
             ("tfraw", "SHAMPOO", 1), ("tfraw", "SKETCHY", 2)]
     cases = []
+    forced = 0   # DS: diagonal-statistics grafts with a beta2 that is not exactly representable, in every tier and seed
     for kind, variant, n in plan:
-        for _ in range(n * mult):
+        for j in range(n * mult):
             T = rng.choice([3, 4, 4, 5]) if tier == "quick" else rng.choice([4, 5, 5, 6])
             if kind == "ds":
                 cfg, shapes = gen_ds(rng, variant, tier)
+                if j == 0 or (j == 1 and variant in ("full", "compress", "fd")):
+                    cfg["graft_type"] = ["RMSPROP", "ADAGRAD", "RMSPROP_NORMALIZED"][forced % 3]
+                    cfg["beta2"] = [0.999, 0.9][(forced // 3) % 2]
+                    if cfg.get("reset_preconditioner"):
+                        cfg.pop("reset_preconditioner")
+                    forced += 1
                 # (frequent_directions under jax_enable_x64 fails a lax.cond dtype check inside the package: C07's subject)
                 x64 = rng.random() < 0.3 and variant in ("full", "quant_repl", "sharded", "quant_pmap")
             elif kind == "sm3":
@@ -431,6 +438,90 @@ def _first_diff(a_bytes, b_bytes):
     return walk(a, b, "") or "byte streams differ but no leaf differs (encoding)"
 
 
+def _leafwise_diff(a_bytes, b_bytes):
+    """None when two msgpack-serialized trees have the same keys and every leaf has the same dtype, shape and bytes
+    (a 0-d array and a numpy scalar of the same dtype count as equal); else a short text naming the first difference."""
+    if a_bytes == b_bytes:
+        return None
+    d = _first_diff(a_bytes, b_bytes)
+    return None if d.startswith("byte streams differ but no leaf differs") else d
+
+
+def _leaf_class(path):
+    """leaf path of a serialized tree -> class: list indices and parameter keys dropped
+    ('/stats/p0/diagonal_statistics/quantized' -> 'stats/diagonal_statistics/quantized')"""
+    import re
+    keep = [c for c in path.split("/") if c and not re.fullmatch(r"\d+|p\d+|a|w|rest", c)]
+    return "/".join(keep)
+
+
+def _diff_classes(a_bytes, b_bytes):
+    """-> (sorted list of leaf classes with a differing leaf, first detail) of two serialized trees with equal structure;
+    a structural difference is reported as class '<structure>'"""
+    import numpy as np
+    from flax import serialization as ser
+    if a_bytes == b_bytes:
+        return [], None
+    a, b = ser.msgpack_restore(a_bytes), ser.msgpack_restore(b_bytes)
+    classes, first = set(), [None]
+
+    def note(path, cls, text):
+        classes.add(cls)
+        if first[0] is None:
+            first[0] = f"{path}: {text}"
+
+    def walk(x, y, path):
+        if isinstance(x, dict) and isinstance(y, dict):
+            if set(x) != set(y):
+                note(path, "<structure>", f"keys {sorted(set(x) ^ set(y))[:4]} differ")
+                return
+            for k in x:
+                walk(x[k], y[k], path + "/" + str(k))
+            return
+        if isinstance(x, dict) or isinstance(y, dict):
+            note(path, "<structure>", "dict vs leaf")
+            return
+        if x is None or y is None:
+            if x is not y:
+                note(path, "<structure>", "None vs leaf")
+            return
+        xa, ya = np.asarray(x), np.asarray(y)
+        if xa.dtype != ya.dtype or xa.shape != ya.shape:
+            note(path, _leaf_class(path), f"{xa.dtype}{list(xa.shape)} vs {ya.dtype}{list(ya.shape)}")
+        elif xa.tobytes() != ya.tobytes():
+            try:
+                d = float(np.nanmax(np.abs(xa.astype(np.float64) - ya.astype(np.float64))))
+                note(path, _leaf_class(path), f"{int((xa != ya).sum())}/{xa.size} entries differ, max |diff| {d:.3e}")
+            except Exception:  # noqa: BLE001
+                note(path, _leaf_class(path), "bytes differ")
+    walk(a, b, "")
+    return sorted(classes), first[0]
+
+
+def _all_classes(a_bytes):
+    """leaf classes present in a serialized tree"""
+    from flax import serialization as ser
+    out = set()
+
+    def walk(x, path):
+        if isinstance(x, dict):
+            for k in x:
+                walk(x[k], path + "/" + str(k))
+        elif x is not None:
+            out.add(_leaf_class(path))
+    walk(ser.msgpack_restore(a_bytes), "")
+    return sorted(out)
+
+
+def graft_of(case):
+    cfg = case["cfg"]
+    if case["kind"] == "ds":
+        return cfg.get("graft_type", "SGD")
+    if case["kind"] == "tf":
+        return cfg.get("graft", "-")
+    return "-"
+
+
 def compare_resume(case, mode, k, res, ref, where):
     """-> list of failure dicts (the direct oracle)"""
     fails = []
@@ -531,8 +622,14 @@ def purity_check(case, mode, k, ref):
     ro = ser.from_bytes(tmpl, ref["sb"][k])
     info["readonly_leaves"] = sum(1 for x in jax.tree_util.tree_leaves(ro) if isinstance(x, np.ndarray) and not x.flags.writeable)
     try:
-        u, _s = R.update(mode, g, ro, params)
-        info["numpy_fed_bit_equal"] = bool(ser.to_bytes(u) == ref["ub"][k])
+        u, s2 = R.update(mode, g, ro, params)
+        ucls, du = _diff_classes(ser.to_bytes(u), ref["ub"][k])
+        scls, dsn = _diff_classes(ser.to_bytes(s2), ref["sb"][k + 1])
+        info["numpy_fed_bit_equal"] = not ucls and not scls
+        info["numpy_fed_update_differs"] = bool(ucls)
+        info["numpy_fed_state_classes"] = scls
+        info["numpy_fed_diff"] = (("update " + du) if du else None) or (("new state " + dsn) if dsn else None)
+        info["numpy_fed_state_detail"] = dsn
     except Exception as e:  # noqa: BLE001
         fail("update raised on the read-only numpy leaves returned by flax from_bytes", _exc(e))
     if ser.to_bytes(ro) != ref["sb"][k]:
